@@ -1,4 +1,6 @@
 import RosuModel.Lemmas.PipelineCurve
+import RosuModel.Lemmas.CurvePipelineFuel
+import RosuModel.Lemmas.CurveDecodeBound
 
 /-!
 # C09 / C02 / C05 — the osu! pipeline from the bytes of the file, curve INCLUDED (`PIPE osuc`)
@@ -45,5 +47,65 @@ theorem osu_from_bytes_with_curve_total (O : BOps R S) (A : Rosu.ConvOsu.Ar R S)
          ∃ curves, curveInputsOfModel O A E C F fuel d (objs.map (·.2)) Bufs.empty = .ok curves ∧
            osuDifficultyFromBytes O A E fuel bytes i take curves = .panic)) :=
   osu_from_bytes_with_curve_total_lemma O A E C F fuel bytes i take
+
+/-! ## the fuel half, in EXACT arithmetic -/
+
+section exact
+variable {K : Type} [Field K] [LinearOrder K] [IsStrictOrderedRing K] (T : Rosu.Curve.Transc K)
+
+/-- **Every control point of every slider of every decoded file is an offset of magnitude `≤ 262144`**
+(DEC's `read_point` / position bounds lifted over `convert_path_str` incl. the stale `curve_points`
+prefix, all lines, and the sorted pairing). -/
+theorem decoded_control_points_bounded (bytes : List UInt8) (d : Decoded)
+    (h : fromBytes bytes = some d) (objs : List (Int × HObj)) (snd : List Nat)
+    (ho : d.objects = some (objs, snd)) :
+    ∀ p ∈ objs, ∀ r len ns cps, p.2.kind = .slider r len ns cps → ∀ c ∈ cps, CPBounded c :=
+  fromBytes_control_points_bounded bytes d h objs snd ho
+
+/-- **`osu_from_bytes_with_curve_fuel`** — the arithmetic: BOTH float types are an ordered field `K`
+(`fieldArith T`: field operations, casts the identity, `i32 as f32` the integer cast, `atan2 ∈ [−π, π]`,
+`π > 0`, the other libm calls uninterpreted); fuel `≥ 4095`.  For EVERY byte list: when the composed
+pipeline answers `fuel`, the curve is not the cause — `Curve::new` returned for every slider (4095
+iterations suffice for offsets within ±262144: the same `k = 11`) — and either some slider's
+`SliderEventsIter` tick loop ran out of fuel on the model's `path.dist()` (its own budget:
+`C05c.slider_events_total_bound`) or the downstream pipeline did.  NOT a statement about `f32`: there
+termination of the bezier loop is searched, and `C05f.bezier_loop_can_spin` shows it cannot be proved for
+arbitrary arithmetics. -/
+theorem osu_from_bytes_with_curve_fuel [Rosu.PerfCalc.PPOps K] (hpi : 0 < T.pi)
+    (hatan : ∀ y x, -T.pi ≤ T.atan2 y x ∧ T.atan2 y x ≤ T.pi)
+    (O : BOps K K) (hO : ∀ n, O.ofI32 n = (n : K)) (A : Rosu.ConvOsu.Ar K K)
+    (E : Rosu.SliderEvents.Arith K) (F : FoldOps K) (fuel : Nat) (hfuel : 4095 ≤ fuel)
+    (bytes : List UInt8) (i : OsuInputs K) (take : Nat)
+    (h : osuDifficultyFromBytesCurve O A E (Rosu.Curve.fieldArith T) F fuel bytes i take = .fuel) :
+    ∃ d objs snd, fromBytes bytes = some d ∧ d.objects = some (objs, snd) ∧
+      ((∃ o ∈ objs.map (·.2), ∃ r len ns cps, o.kind = .slider r len ns cps ∧
+          EventsOutOfFuel O E fuel d o.time r) ∨
+       ∃ curves, curveInputsOfModel O A E (Rosu.Curve.fieldArith T) F fuel d (objs.map (·.2))
+            Bufs.empty = .ok curves ∧
+          osuDifficultyFromBytes O A E fuel bytes i take curves = .fuel) := by
+  refine osuFromBytesCurve_fuel T hpi hatan O hO A E F fuel hfuel bytes i take ?_ h
+  intro d objs snd hb ho o hmem r len ns cps hk c hc
+  obtain ⟨p, hp, rfl⟩ := List.mem_map.mp hmem
+  exact fromBytes_control_points_bounded bytes d hb objs snd ho p hp r len ns cps hk c hc
+
+/-- The curve of every decoded slider returns in exact arithmetic, in EVERY mode (`is_osu` arbitrary:
+this is also the curve call of `PIPE catchcurve`, whose composition with the catch pipeline exists only
+at the wire level), on any stale path and any well-formed buffers. -/
+theorem decoded_slider_curve_terminates_exact (hpi : 0 < T.pi)
+    (hatan : ∀ y x, -T.pi ≤ T.atan2 y x ∧ T.atan2 y x ≤ T.pi)
+    (O : BOps K K) (hO : ∀ n, O.ofI32 n = (n : K)) (fuel : Nat) (hfuel : 4095 ≤ fuel)
+    (bytes : List UInt8) (d : Decoded) (h : fromBytes bytes = some d)
+    (objs : List (Int × HObj)) (snd : List Nat) (ho : d.objects = some (objs, snd))
+    (p : Int × HObj) (hp : p ∈ objs) (r : Nat) (len : Option Nat) (ns : List Nat) (cps : List CP)
+    (hk : p.2.kind = .slider r len ns cps) (isOsu : Bool) (prev : Array (Rosu.Curve.Pos K))
+    (bez : Rosu.Curve.Bez K) (hb : Rosu.Curve.BezWF bez) :
+    ∃ c b', Rosu.Curve.curveNew (Rosu.Curve.fieldArith T) fuel isOsu (controlPoints O cps)
+      (len.map O.dec64) prev bez = .ok (c, b') :=
+  Rosu.Curve.curveNew_total_wide T hpi hatan fuel hfuel isOsu (controlPoints O cps)
+    (len.map O.dec64) prev bez hb
+    (controlPoints_bounded O hO cps
+      (fromBytes_control_points_bounded bytes d h objs snd ho p hp r len ns cps hk))
+
+end exact
 
 end Rosu.PipelineCurve
